@@ -1022,3 +1022,10 @@ F("U18", "C12", NS, "    if s > max_state2:\n      if s > maxs:", "    if s >= m
 F("U19", "C12", NS, "    elif s != 0:\n      cnt[s] += 1", "    elif s > 0:\n      cnt[s] += 1", "R-C12-CYCLES", "a negative state closes the cycle")
 F("U20", "C12", NS, "      cnt = collections.defaultdict(int)\n  cnts.append(cnt)\n  total_cnt", "      cnt = collections.defaultdict(int)\n  total_cnt", "R-C12-CYCLES", "the last cycle is dropped")
 T("U21", "C12", NS, "    elif s != 0:\n      cnt[s] += 1\n    else:\n      cnts.append(cnt)\n      cnt = collections.defaultdict(int)", "    elif s == 0:\n      cnts.append(cnt)\n      cnt = collections.defaultdict(int)\n    else:\n      cnt[s] = cnt[s] + 1", "branches swapped, increment spelled out")
+_RD = "      prob_dependent = 2**(j - r)\n      res[j + 1] += res[j] * (1 - prob_dependent)\n      res[j] *= prob_dependent"
+F("U22", "C12", NS, _RD, "      prob_dependent = 2**(j - r)\n      res[j] *= prob_dependent\n      res[j + 1] += res[j] * (1 - prob_dependent)", "R-C12-RANKDP", "rank j scaled before it is read")
+F("U23", "C12", NS, _RD, "      prob_dependent = 2**(j - r - 1)\n      res[j + 1] += res[j] * (1 - prob_dependent)\n      res[j] *= prob_dependent", "R-C12-RANKDP", "span probability halved")
+F("U24", "C12", NS, "    for j in range(r - 1, -1, -1):\n      prob_dependent", "    for j in range(r):\n      prob_dependent", "R-C12-RANKDP", "in-place update from the bottom")
+F("U25", "C12", NS, "  return res[-k:][::-1] + [sum(res[:-k])]", "  return res[-k:] + [sum(res[:-k])]", "R-C12-RANKDP", "classes in ascending rank")
+F("U26", "C12", NS, "  for _ in range(c):\n    for j in range(r - 1", "  for _ in range(r):\n    for j in range(r - 1", "R-C12-RANKDP", "one step per row instead of per column")
+T("U27", "C12", NS, _RD, "      p_in = 2**(j - r)\n      cur = res[j]\n      res[j] = cur * p_in\n      res[j + 1] = res[j + 1] + cur * (1 - p_in)", "old value through a temporary, lower rank first")
